@@ -81,7 +81,7 @@ def pools(rng):
         ('exponent-upper', '1E%d' % rng.randint(0, 9)), ('leading-dot', '.%d' % rng.randint(1, 999)), ('trailing-dot', '%d.' % abs(n)),
         ('padded', ' %r ' % f), ('plus-sign', '+%r' % abs(f)), ('underscore', '1_000.5'), ('negative-zero', '-0.0'),
         ('many-fraction-digits', '0.1234567890123456789'), ('tiny', '1e-%d' % rng.randint(20, 300)),
-        ('max-magnitude', '9999999999999.5'), ('huge>=1e13', '1e13'), ('huge>=1e13', '12345678901234567890123.5'), ('huge>=1e13', '1e400'),
+        ('max-magnitude', '999999999999999999.5'), ('huge>=1e18', '1e18'), ('huge>=1e18', '12345678901234567890123.5'), ('huge>=1e18', '1e400'),
         ('alpha', 'abc'), ('nan', 'NaN'), ('inf', rng.choice(['inf', '-inf'])), ('comma-decimal', '1,5'), ('hex', '0x10'),
         ('empty', ''), ('blank', ' '), ('two-dots', '1.2.3'), ('exp-no-digits', '1e'), ('dot-only', '.'),
     ]
